@@ -30,6 +30,7 @@ import (
 	"net/http"
 	"net/http/httputil"
 	"net/url"
+	"sort"
 	"strings"
 	"sync"
 	"time"
@@ -533,6 +534,10 @@ func NewRequest(req *http.Request, withBody bool) (*Request, error) {
 		Cookies:     cookies(req.Cookies()),
 	}
 
+	if th := trailerHeader(req.Trailer); th != nil {
+		r.Headers = append(r.Headers, *th)
+	}
+
 	for n, vs := range req.URL.Query() {
 		for _, v := range vs {
 			r.QueryString = append(r.QueryString, QueryString{
@@ -594,6 +599,10 @@ func NewResponse(res *http.Response, withBody bool) (*Response, error) {
 		BodySize:    res.ContentLength,
 		Headers:     headers(proxyutil.ResponseHeader(res).Map()),
 		Cookies:     cookies(res.Cookies()),
+	}
+
+	if th := trailerHeader(res.Trailer); th != nil {
+		r.Headers = append(r.Headers, *th)
 	}
 
 	if res.StatusCode >= 300 && res.StatusCode < 400 {
@@ -738,6 +747,23 @@ func cookies(cs []*http.Cookie) []Cookie {
 	}
 
 	return hcs
+}
+
+// trailerHeader returns the Trailer header of a message that announces
+// trailers: net/http keeps the announcement in the Trailer map, not in the
+// header map, and writes it back when the message is forwarded.
+func trailerHeader(trailer http.Header) *Header {
+	if len(trailer) == 0 {
+		return nil
+	}
+
+	keys := make([]string, 0, len(trailer))
+	for k := range trailer {
+		keys = append(keys, k)
+	}
+	sort.Strings(keys)
+
+	return &Header{Name: "Trailer", Value: strings.Join(keys, ",")}
 }
 
 func headers(hs http.Header) []Header {
